@@ -244,7 +244,21 @@ func (se *specEnv) lookupObj(x ast.Expr) types.Object {
 				return obj
 			}
 		}
-		return types.Universe.Lookup(n.Name)
+		if obj := types.Universe.Lookup(n.Name); obj != nil {
+			return obj
+		}
+		// an unqualified exported name of a directly imported module package
+		// (type-derived clauses print type names without their package)
+		if se.pkg != nil && token.IsExported(n.Name) {
+			for _, imp := range se.pkg.Imports() {
+				if strings.HasPrefix(imp.Path(), modulePrefix) {
+					if obj := imp.Scope().Lookup(n.Name); obj != nil {
+						return obj
+					}
+				}
+			}
+		}
+		return nil
 	case *ast.SelectorExpr:
 		id, ok := n.X.(*ast.Ident)
 		if !ok || se.pkg == nil {
@@ -733,6 +747,12 @@ func (se *specEnv) evalCall(n *ast.CallExpr) Val {
 			}
 		}
 		if rc := se.f.rootCtr(); rc != nil {
+			for _, g := range rc.Callbacks {
+				if g == id.Name {
+					n := "G_" + g
+					return boolVal(fmt.Sprintf("(select %s %s)", e.heapByName(se.st, n), arg(0).term))
+				}
+			}
 			if sig, ok := rc.Funs[id.Name]; ok {
 				var as []string
 				for _, a := range n.Args {
